@@ -1,5 +1,6 @@
 import Driver.Proto
 import Driver.Kw
+import Driver.Cursor
 import Driver.Lists
 import Driver.Pratt
 import Driver.Tok
@@ -9,6 +10,7 @@ namespace Driver
 def dispatch (line : String) : String :=
   match line.splitOn "\t" with
   | "kw" :: args => handleKw args
+  | "cursor" :: args => handleCursor args
   | "lists" :: args => handleLists args
   | "prec" :: args => Pr.handlePrec args
   | "chains" :: args => Pr.handleChains args
